@@ -200,8 +200,12 @@ struct FaultBuf : std::streambuf {
 // outcome of one load: 'E' exception (class in `cls`), 'F' a field was returned
 struct Outcome { char kind; std::string cls; std::size_t consumed; u64 calls; std::size_t end; };  // end: bytes the stream delivered before it stopped
 
+// when set, the caller's stream throws on failbit/badbit (is.exceptions(...)): a loader must still end in an exception,
+// not in std::terminate
+inline bool g_stream_throws = false;
 template <typename F, typename Fn> Outcome loadWith(const std::string & bytes, FaultBuf::Mode m, u64 arg, Fn && onField) {
   FaultBuf fb(bytes, m, arg); std::istream is(&fb);
+  if (g_stream_throws) is.exceptions(std::ios::failbit | std::ios::badbit);
   Outcome r{'E', "", 0, 0, 0};
   try { F f(is); r.kind = 'F'; onField(f); }
   catch (std::bad_alloc &) { r.cls = "bad_alloc"; }
@@ -249,9 +253,11 @@ template <typename B> std::string runOp(const std::string & op, std::istringstre
     if (r.kind == 'E') return "error " + r.cls + " end=" + std::to_string(r.end);
     return "ok " + std::to_string(b.size() - r.consumed);
   }
-  if (op == "prefixes") {  // every k in [0, len]: stream that ends after k bytes
+  if (op == "prefixes" || op == "xprefixes") {  // every k in [0, len]: stream that ends after k bytes (x: stream with exceptions(failbit|badbit))
     is >> h; std::string b = unhex(h); std::string out;
+    g_stream_throws = (op == "xprefixes");
     for (std::size_t k = 0; k <= b.size(); ++k) out += loadPlain<F>(b, FaultBuf::CUT, k).kind;
+    g_stream_throws = false;
     return out;
   }
   if (op == "alts") {      // alts <hex> off:hexword(8 digits, value)...   4-byte little-endian word replaced at off
